@@ -186,7 +186,7 @@ def drive(rec, ms, quick):
 
 
 def drive_tables(rec, tabs):
-    """advisory: real reim forward tables against the table generated from the schedule"""
+    """advisory: real reim and cplx forward tables against the tables generated from the schedule"""
     try:
         import mpmath
         mpmath.mp.prec = 120
@@ -200,7 +200,7 @@ def drive_tables(rec, tabs):
     import ctypes
     for tb in tabs:
         m = tb["m"]
-        t = tables.get("new_reim_fft_precomp", m, MASK_NONE, ("w", 0))
+        t = tables.get("new_%s_fft_precomp" % tb.get("layout", "reim"), m, MASK_NONE, ("w", 0))
         # powomegas pointer is the 4th 8-byte field: function, m, buf_size, powomegas (see reim_fft_private.h); read through the struct
         ptr = ctypes.cast(t + 24, ctypes.POINTER(ctypes.c_void_p))[0]
         real = np.ctypeslib.as_array(ctypes.cast(ptr, ctypes.POINTER(ctypes.c_double)), shape=(len(tb["table"]),)).copy()
@@ -211,7 +211,7 @@ def drive_tables(rec, tabs):
             checked += 1
             # the library evaluates cos/sin of a double-rounded argument 2 pi s (s <= 1): absolute error of a few 2^-53
             if abs(got - exact) > 8 * mpmath.mpf(2) ** -53:
-                drift.append("m=%d entry %d: %s(2 pi %d/%d) expected %s got %r" % (m, idx, kind, e, 4 * m, mpmath.nstr(exact, 20), float(real[idx])))
+                drift.append(tb.get("layout", "reim") + " m=%d entry %d: %s(2 pi %d/%d) expected %s got %r" % (m, idx, kind, e, 4 * m, mpmath.nstr(exact, 20), float(real[idx])))
                 if len(drift) > 10:
                     break
     rec.data["drift"] = drift
@@ -224,7 +224,10 @@ def run(chk, replay=None):
     chk.assumptions += ["the error-norm clause is measured against an 80-bit long double evaluation of the documented map (TLA+ has no reals)",
                         "classification of impulse responses to 4m-th roots of unity is unambiguous: spacing >= 2.4e-5 rad, residual <= 2^-40 demanded",
                         "the assembly leaves cannot be hooked; they are bound behaviourally through the AVX2 drivers (m = 16 and above)"]
-    for cfg, role in (("FftSchedule_quick.cfg", "m = 1..256, breadth-first regime"), ("FftSchedule_rec.cfg", "m = 64..256 with recursion threshold 32")):
+    for cfg, role in (("FftSchedule_quick.cfg", "reim layout, m = 1..256, breadth-first regime"),
+                      ("FftSchedule_rec.cfg", "reim layout, m = 64..256 with recursion threshold 32"),
+                      ("FftSchedule_cplx.cfg", "cplx layout (radix-2 passes up to m = 8, own table layout), m = 1..256"),
+                      ("FftSchedule_cplx_rec.cfg", "cplx layout, m = 64..256 with recursion threshold 32")):
         r = run_tlc("FftSchedule", cfg, workers=9, xmx="16g", name="c06-" + cfg, timeout=1800)
         tlc_must_pass(r, cfg)
         chk.add_tlc(r, "symbolic schedule = evaluation map: " + role)
@@ -235,6 +238,9 @@ def run(chk, replay=None):
     r = run_tlc("FftSchedule", "FftSchedule_gen.cfg", workers=1, xmx="8g", name="c06-gen", timeout=900)
     tlc_must_pass(r, "FftSchedule gen")
     tabs = printed_json(r, "TABLE")
+    r = run_tlc("FftSchedule", "FftSchedule_cplx_gen.cfg", workers=1, xmx="8g", name="c06-gen-cplx", timeout=900)
+    tlc_must_pass(r, "FftSchedule cplx gen")
+    tabs += printed_json(r, "TABLE")
     ms = [1 << s for s in range(0, 13)] + [65536] if quick else [1 << s for s in range(0, 17)]
     jobs = [("FFT probes m=%s" % ms[i::7], drive, (ms[i::7], quick)) for i in range(7)] + [("table binding", drive_tables, (tabs,))]
     res = isolated_many(chk, jobs, timeout=3000, nproc=8)
